@@ -18,6 +18,8 @@ def generate(tier, rng):
     out += ["E u16 %d" % x for x in range(65536)]
     out += ["E i16 %d" % x for x in range(-32768, 32768)]
     out += ["E simple %d" % x for x in range(256)]
+    # data::IanaTag: every variant (tag number against the IANA registry, Spec/IanaReg.v; the head written; the way back)
+    out += ["IANA %d" % i for i in range(42)] + ["IANAT %d" % n for n in list(range(1200)) + [65535, 65536, 1 << 32, U64]]
     out += ["E bool true", "E bool false", "E null", "E undefined", "E begin_array", "E begin_bytes", "E begin_map", "E begin_str", "E end"]
     nrand = 20000 if big else 3000
     for m, lo, hi in (("u32", 0, (1 << 32) - 1), ("u64", 0, U64), ("i32", -(1 << 31), (1 << 31) - 1), ("i64", -(1 << 63), (1 << 63) - 1),
